@@ -174,6 +174,11 @@ package container
 //   CurName: the name of the component whose init method is being invoked (set by the container right before the call)
 //@ ghost var St map[string]int
 //@ ghost var BeforeLen map[string]int
+//   PropsLen/PropsAt: per name, the sequence of processors whose PostProcessProperties ran (C18: stage order);
+//   PropsPos: the position each of them had in the factory's processor list
+//@ ghost var PropsLen map[string]int
+//@ ghost var PropsAt map[string]map[int]InstantiationAwareComponentPostProcessor
+//@ ghost var PropsPos map[string]map[int]int
 //@ ghost var BeforeAt map[string]map[int]ComponentPostProcessor
 //@ ghost var AfterLen map[string]int
 //@ ghost var AfterAt map[string]map[int]ComponentPostProcessor
@@ -220,7 +225,7 @@ package container
 // What a creation (creating callback, early-reference callback, and every registry operation that may run one) is
 // allowed to touch besides the registry's own caches: injection-point candidate lists and tag values, dependents,
 // memory behind settable fields, lifecycle / narrowing ghost state. A-CALLBACK: user callbacks stay inside this frame.
-//@ frame CreationFrame() = ShortCircuit, Wrapped, anyfield(component_definition.Property, Injects), anyfield(component_definition.Property, TagVal), anyfield(component_definition.Meta, Dependent), anyfield(sync2.Map[string, struct{}], Dom), anyfield(sync2.Map[string, struct{}], Val), RMem, RTop, FilterSrc, FilterPos, MetasPos, PosSnap, allmaps(map[string]any), ElLastInput, St, BeforeLen, BeforeAt, AfterLen, AfterAt, ApsCalls, InitCalls, CurName, Failed
+//@ frame CreationFrame() = ShortCircuit, Wrapped, anyfield(component_definition.Property, Injects), anyfield(component_definition.Property, TagVal), anyfield(component_definition.Meta, Dependent), anyfield(sync2.Map[string, struct{}], Dom), anyfield(sync2.Map[string, struct{}], Val), RMem, RTop, FilterSrc, FilterPos, MetasPos, PosSnap, allmaps(map[string]any), ElLastInput, St, PropsLen, PropsAt, PropsPos, BeforeLen, BeforeAt, AfterLen, AfterAt, ApsCalls, InitCalls, CurName, Failed
 //@ frame RegFrame(r) = r.L1Dom, r.L1, r.L2Dom, r.L2, r.L3Dom, r.L3, r.IC, r.EarlyRuns, r.Creates, r.HasHole, r.Hole
 
 // ---- instantiation-aware processors (C05, C09, C18): all three run before the component's initialization ---------
@@ -242,6 +247,7 @@ package container
 //@ assigns CreationFrame()
 //@ ensures [lifecycle-untouched] St == old(St) && BeforeLen == old(BeforeLen) && AfterLen == old(AfterLen) && ApsCalls == old(ApsCalls) && InitCalls == old(InitCalls) && ShortCircuit == old(ShortCircuit) && Wrapped == old(Wrapped) && RTop >= old(RTop)
 //@ ensures [failure-recorded] Failed == (old(Failed) || result1 != nil)
+//@ ensures [properties-traced] PropsLen == store(old(PropsLen), componentName, old(PropsLen[componentName]) + 1) && PropsAt == store(old(PropsAt), componentName, store(old(PropsAt[componentName]), old(PropsLen[componentName]), toany(self))) && PropsPos == old(PropsPos)
 
 //@ method (SmartInstantiationAwareBeanPostProcessor).GetEarlyBeanReference
 //@ property C03 C09
@@ -379,7 +385,7 @@ package container
 //@ ensures [processors-non-nil] forall(i, int, implies(0 <= i && i < len(result), result[i] != nil), result[i])
 //@ method (Factory).GetDefinitionRegistry
 //@ assigns nothing
-//@ ensures [registry-present] result != nil
+//@ ensures [registry-present] result != nil && result == self.DefRegistry
 
 // GetMetaOrRegister returns the definition registered under the name, creating and registering it first if there is
 // none (interface level; the built-in registry's implementation goes through sync2.Map.LoadOrStoreFn and NewMeta).
@@ -390,3 +396,30 @@ package container
 //@ ensures [others-kept] forall(n, string, implies(n != name, self.DefDom[n] == old(self.DefDom[n]) && self.Def[n] == old(self.Def[n])))
 //@ ensures [scanned] FieldsInv(result) && result.propertyGroup != nil && (result == old(self.Def[name]) || (fresh(result) && fresh(result.propertyGroup)))
 //@ ensures [rtop-monotone] RTop >= old(RTop)
+
+// ---- factory preparation (C09, C18, C05): collecting processors, wiring them, scanning, sorting ------------------------
+//@ ghost field (Factory) DefRegistry DefinitionRegistry
+//@ method (Factory).GetConfigure
+//@ assigns nothing
+//@ ensures [configure] result == self.WiredConfigure
+
+// A component-factory post-processor (A-CALLBACK) only stores what it needs from the factory in its own fields.
+//@ method (ComponentFactoryPostProcessor).PostProcessComponentFactory
+//@ property C09
+//@ requires [factory-given] factory != nil
+//@ assigns ProcessorWiring(), Failed
+//@ ensures [failure-recorded] Failed == (old(Failed) || result != nil)
+
+//@ method (SingletonRegistry).GetSingletonNames
+//@ assigns nothing
+//@ method (SingletonRegistry).GetSingleton
+//@ assigns nothing
+//@ ensures [found-or-error] implies(result1 == nil, result0 != nil)
+
+// Creating a component through the Factory interface touches registries and the creation frame, nothing else.
+//@ frame AnyRegFrame() = anyfield(SingletonComponentRegistry, L1Dom), anyfield(SingletonComponentRegistry, L1), anyfield(SingletonComponentRegistry, L2Dom), anyfield(SingletonComponentRegistry, L2), anyfield(SingletonComponentRegistry, L3Dom), anyfield(SingletonComponentRegistry, L3), anyfield(SingletonComponentRegistry, IC), anyfield(SingletonComponentRegistry, EarlyRuns), anyfield(SingletonComponentRegistry, Creates), anyfield(SingletonComponentRegistry, HasHole), anyfield(SingletonComponentRegistry, Hole)
+//@ method (Factory).GetComponentByName
+//@ property C09 C01
+//@ assigns AnyRegFrame(), CreationFrame()
+//@ ensures [failure-surfaces] implies(result1 == nil, Failed == old(Failed))
+//@ ensures [returns-component] implies(result1 == nil, result0 != nil)
